@@ -31,12 +31,16 @@ ApplyPerm(bs, p) ==
     [] p.kind = "reverse-entries" -> [j \in 1..Len(bs) |-> [bs[j] EXCEPT !.entries = Rev(@)]]
     [] p.kind = "swap-entries" -> [bs EXCEPT ![p.a].entries = IF Len(@) > p.b THEN Swap(@, p.b, p.b + 1) ELSE Rev(@)]
 Valid(bs, p) == p.kind # "swap-blocks" \/ p.a < p.b
+\* both texts may carry a comment line after every entry of an expressions block (C17: comment lines mean nothing,
+\* so the permuted statements travel across them); "none" = no comment lines
+Seps == {"none", "comments"}
 
 PInit == Init /\ perm = None /\ pblocks = None /\ pmi = None
 PChoose == Choose /\ UNCHANGED <<perm, pblocks, pmi>>
 Permute == /\ pc = "done" /\ Hash % BaseMod = 0
            /\ LET bs == ModelOf(deps, layout).blocks IN
-              \E p \in Perms2(bs) : /\ Valid(bs, p) /\ perm' = p /\ pblocks' = ApplyPerm(bs, p)
+              \E p \in Perms2(bs), sp \in Seps : /\ Valid(bs, p) /\ perm' = [kind |-> p.kind, a |-> p.a, b |-> p.b, sep |-> sp]
+                                    /\ pblocks' = ApplyPerm(bs, p)
                                     /\ pmi' = Info([blocks |-> pblocks'])
            /\ pc' = "permuted" /\ UNCHANGED <<deps, sched, i, layout, mi, lay>>
 PNext == PChoose \/ Permute
@@ -49,7 +53,8 @@ C10_SameModel == Permuted => pmi = mi
 C10_SameLayout == Permuted => Layout(pmi, CanonSched(pmi)) = lay
 C10_StillAccepted == Permuted => (LoadOutcome(pmi) = "ok" /\ SortOutcome(pmi, CanonSched(pmi)) = "ok")
 
-PHash == Hash + 3 * perm.a + 5 * perm.b + Len(perm.kind)
+PHash == ((Hash2 % 10007) * 31 + 7919 * Len(perm.kind) + 3571 * perm.a + 1013 * perm.b + (IF perm.sep = "none" THEN 0 ELSE 104729)
+          + (Hash \div BaseMod) * 17) % 100003
 PEmit == (Permuted /\ PermEmitMod > 0 /\ PHash % PermEmitMod = 0) =>
    PrintT(ToJson([blocks |-> BlocksJson(ModelOf(deps, layout).blocks), pblocks |-> BlocksJson(pblocks), perm |-> perm]))
 =============================================================================
